@@ -2,25 +2,30 @@
 // Solver counter-example(s) produced by Kani's concrete playback; replay with
 //   ./check C10 --replay /verif/replay/cases/c10__q__u8___chunks.rs
 
-/// Test generated for harness `c10::q::u8_::chunks` 
-///
-/// Check for `assertion`: "attempt to multiply with overflow"
-
+// failed check (assertion): assertion failed: should_ok
 #[test]
-fn kani_concrete_playback_chunks_13825755168455989518() {
+fn kani_concrete_playback_chunks_12303451014497124172() {
     let concrete_vals: Vec<Vec<u8>> = vec![
-        // 254
-        vec![254],
-        // 254
-        vec![254],
-        // 254
-        vec![254],
-        // 254
-        vec![254],
-        // 3ul
-        vec![3, 0, 0, 0, 0, 0, 0, 0],
-        // 6148914691236517213ul
-        vec![93, 85, 85, 85, 85, 85, 85, 85],
+        // 1
+        vec![1],
+        // 0
+        vec![0],
+        // 128
+        vec![128],
+        // 0
+        vec![0],
+        // 1ul
+        vec![1, 0, 0, 0, 0, 0, 0, 0],
+        // 11ul
+        vec![11, 0, 0, 0, 0, 0, 0, 0],
+        // 10ul
+        vec![10, 0, 0, 0, 0, 0, 0, 0],
+        // 0
+        vec![0],
+        // 1ul
+        vec![1, 0, 0, 0, 0, 0, 0, 0],
+        // 0ul
+        vec![0, 0, 0, 0, 0, 0, 0, 0],
     ];
     kani::concrete_playback_run(concrete_vals, crate::c10::q::u8_::chunks);
 }
